@@ -295,7 +295,7 @@ Proof.
     destruct (skipn i b) as [|x [|y [|z [|w ?]]]]; cbn [length] in Hs; try lia. eexists. reflexivity. }
   destruct (Hu 0%nat ltac:(lia)) as [v0 ->]. destruct (Hu 4%nat ltac:(lia)) as [v1 ->].
   destruct (Hu 8%nat ltac:(lia)) as [v2 ->]. destruct (Hu 12%nat ltac:(lia)) as [v3 ->]. cbn [rbind].
-  destruct (negb _); [intros H; injection H as <-; reflexivity|]. destruct (negb _); [intros H; injection H as <-; reflexivity|discriminate].
+  destruct (negb _); [intros H; injection H as <-; reflexivity|discriminate].
 Qed.
 
 (* no sequence of bytes ends the Receiver task in a way that escapes start() *)
